@@ -1089,3 +1089,27 @@ V("C18", "benign-ioprio-c-locals-renamed", PC,
     "    if (klass < 0 || klass > 7 ||\n            level < 0 || level > (int)IOPRIO_PRIO_MASK) {"),
    ("    ioprio = IOPRIO_PRIO_VALUE(ioclass, iodata);", "    ioprio = IOPRIO_PRIO_VALUE(klass, level);")],
   "silent")
+V("C19", "defect-F18-returns", L,
+  ("    basenames = glob.glob('/sys/class/hwmon/hwmon*/fan*_*')\n    # CentOS has an intermediate /device directory:\n    # https://github.com/giampaolo/psutil/issues/971\n    basenames.extend(glob.glob('/sys/class/hwmon/hwmon*/device/fan*_*'))\n",
+   "    basenames = glob.glob('/sys/class/hwmon/hwmon*/fan*_*')\n    if not basenames:\n        basenames = glob.glob('/sys/class/hwmon/hwmon*/device/fan*_*')\n"),
+  "fires:C19.R2")
+V("C19", "temps-nested-layout-dropped", L,
+  ("    basenames.extend(glob.glob('/sys/class/hwmon/hwmon*/device/temp*_*'))\n", ""),
+  "fires:C19.R2")
+V("C19", "benign-discovery-helper-union", L,
+  [("    basenames = glob.glob('/sys/class/hwmon/hwmon*/fan*_*')\n    # CentOS has an intermediate /device directory:\n    # https://github.com/giampaolo/psutil/issues/971\n    basenames.extend(glob.glob('/sys/class/hwmon/hwmon*/device/fan*_*'))\n    basenames = sorted({x.split(\"_\")[0] for x in basenames})\n",
+    "    basenames = _hwmon_basenames('fan')\n"),
+   ("def sensors_fans():",
+    "def _hwmon_basenames(kind):\n    found = glob.glob(f'/sys/class/hwmon/hwmon*/{kind}*_*')\n    found += glob.glob(f'/sys/class/hwmon/hwmon*/device/{kind}*_*')\n    return sorted({x.split('_')[0] for x in found})\n\n\ndef sensors_fans():")],
+  "silent")
+V("C19", "battery-truthiness-guard", L,
+  ("    elif energy_now is not None and power_now is not None:\n        try:\n            secsleft = int(energy_now / power_now * 3600)\n        except ZeroDivisionError:\n            secsleft = _common.POWER_TIME_UNKNOWN\n",
+   "    elif energy_now and power_now:\n        secsleft = int(energy_now / power_now * 3600)\n"),
+  "fires:C19.R3")
+V("C19", "battery-zero-division-unhandled", L,
+  ("        try:\n            secsleft = int(energy_now / power_now * 3600)\n        except ZeroDivisionError:\n            secsleft = _common.POWER_TIME_UNKNOWN\n",
+   "        secsleft = int(energy_now / power_now * 3600)\n"), "fires:C19.R3")
+V("C19", "benign-battery-guard-excludes-zero-power", L,
+  ("    elif energy_now is not None and power_now is not None:\n        try:\n            secsleft = int(energy_now / power_now * 3600)\n        except ZeroDivisionError:\n            secsleft = _common.POWER_TIME_UNKNOWN\n",
+   "    elif energy_now is not None and power_now is not None and power_now == 0:\n        secsleft = _common.POWER_TIME_UNKNOWN\n    elif energy_now is not None and power_now is not None:\n        secsleft = int(energy_now / power_now * 3600)\n"),
+  "silent")
